@@ -43,8 +43,18 @@ pub fn slow_engine(e: EngineKind) -> bool {
     matches!(e, EngineKind::Naive | EngineKind::Lockstep | EngineKind::NeonEmu)
 }
 
+/// Slow engines (byte-at-a-time reference, five engines in lock step, emulated Neon) stay just above the 128 KiB mark.
+fn clamp_bytes_for(kind: Kind, b: usize) -> usize {
+    if slow_engine(kind.engine) && b > 140_000 {
+        131_136 + (b % 64)
+    } else {
+        b
+    }
+}
+
 fn gen_config_for(ch: &mut Chooser, kind: Kind) -> (usize, usize, usize) {
     let (k, r, b) = gen_config(ch, kind.layer.family());
+    let b = clamp_bytes_for(kind, b);
     if slow_engine(kind.engine) && k + r > 200 {
         // keep slow engines on small and medium stripes
         let (k2, r2) = gen_counts(ch, kind.layer.family(), 1);
@@ -384,6 +394,11 @@ fn static_probe(ch: &mut Chooser, ctx: &mut Ctx, kind: Kind, decoder: bool) -> b
 
 /// A reset / new target: mostly valid, biased to same-config, shrink-then-grow, crossing the rate boundary.
 fn gen_next_config(ch: &mut Chooser, kind: Kind, cur: (usize, usize, usize)) -> (usize, usize, usize) {
+    let (k, r, b) = gen_next_config_any(ch, kind, cur);
+    (k, r, clamp_bytes_for(kind, b))
+}
+
+fn gen_next_config_any(ch: &mut Chooser, kind: Kind, cur: (usize, usize, usize)) -> (usize, usize, usize) {
     match ch.weighted("next.kind", &[3, 3, 2, 2, 2]) {
         4 => {
             // same total need in another shape: half the counts with double the shard size, or the reverse
@@ -805,7 +820,10 @@ pub fn run_encoder(ch: &mut Chooser, ctx: &mut Ctx) {
         if ctx.stop {
             return;
         }
-        if let (Some((_, idle)), 30) = (marathon, op_no) {
+        if st.cfg.2 > 100_000 && op_no >= 14 {
+            break; // histories on shards of 128 KiB and more stay short (cost)
+        }
+        if let (Some((_, idle)), 30, true) = (marathon, op_no, st.cfg.0 + st.cfg.1 <= 64 && st.cfg.2 <= 128) {
             // the idle stretch: resets to the configuration the object has, now and then with a shard added before
             let (k, r, b) = st.cfg;
             ctx.count("probe.marathon_histories");
@@ -929,7 +947,7 @@ pub fn run_encoder(ch: &mut Chooser, ctx: &mut Ctx) {
             3 => {
                 let next = if st.must_reset && ch.chance("leak.samecfg", 1, 2) {
                     st.cfg
-                } else if marathon.is_some() && ch.chance("marathon.stay", 3, 4) {
+                } else if marathon.is_some() {
                     gen_sibling_config(ch, st.kind, st.cfg)
                 } else {
                     gen_next_config(ch, st.kind, st.cfg)
@@ -1008,7 +1026,7 @@ pub fn run_encoder(ch: &mut Chooser, ctx: &mut Ctx) {
                         return;
                     }
                 }
-                let next = gen_next_config(ch, new_kind, st.cfg);
+                let next = if marathon.is_some() { gen_sibling_config(ch, new_kind, st.cfg) } else { gen_next_config(ch, new_kind, st.cfg) };
                 let next = if envelope::supported(new_kind.layer.family(), next.0, next.1) { next } else { gen_config_for(ch, new_kind) };
                 let (work, held) = if new_kind.layer != Layer::Rs && !pool.enc.is_empty() && ch.chance("recycle.usepool", 3, 4) {
                     let i = ch.pick_usize("recycle.which", pool.enc.len());
@@ -1539,7 +1557,10 @@ pub fn run_decoder(ch: &mut Chooser, ctx: &mut Ctx) {
         if ctx.stop {
             return;
         }
-        if let (Some((_, idle)), 30) = (marathon, op_no) {
+        if st.cfg.2 > 100_000 && op_no >= 14 {
+            break; // histories on shards of 128 KiB and more stay short (cost)
+        }
+        if let (Some((_, idle)), 30, true) = (marathon, op_no, st.cfg.0 + st.cfg.1 <= 64 && st.cfg.2 <= 128) {
             // the idle stretch: resets to the configuration the object has, now and then with a shard added before
             let (k, r, b) = st.cfg;
             ctx.count("probe.marathon_histories");
@@ -1757,7 +1778,7 @@ pub fn run_decoder(ch: &mut Chooser, ctx: &mut Ctx) {
                 let sibling = !st.last_round.is_empty() && ch.chance("reset.sibling", 1, 3);
                 let next = if st.must_reset && ch.chance("leak.samecfg", 1, 2) {
                     st.cfg
-                } else if sibling || (marathon.is_some() && ch.chance("marathon.stay", 3, 4)) {
+                } else if sibling || marathon.is_some() {
                     gen_sibling_config(ch, st.kind, st.cfg)
                 } else {
                     gen_next_config(ch, st.kind, st.cfg)
@@ -1840,7 +1861,7 @@ pub fn run_decoder(ch: &mut Chooser, ctx: &mut Ctx) {
                         return;
                     }
                 }
-                let next = gen_next_config(ch, new_kind, st.cfg);
+                let next = if marathon.is_some() { gen_sibling_config(ch, new_kind, st.cfg) } else { gen_next_config(ch, new_kind, st.cfg) };
                 let next = if envelope::supported(new_kind.layer.family(), next.0, next.1) { next } else { gen_config_for(ch, new_kind) };
                 let (work, held) = if new_kind.layer != Layer::Rs && !pool.dec.is_empty() && ch.chance("recycle.usepool", 3, 4) {
                     let i = ch.pick_usize("recycle.which", pool.dec.len());
